@@ -57,6 +57,36 @@ func (e *env) maskOf(v iox.Variant) func(string) string {
 	return func(t string) string { return jsonLineRe.ReplaceAllString(t, "before/near line N") }
 }
 
+// minPerRun: variant -> minimum number of inputs per run (quick and thorough).
+var minPerRun = map[string]int{
+	"edi+release":                 10, // release character + escaped delimiters, cuts between them
+	"edi+multibyte-delim":         4,
+	"edi+lf-delim-crlf-input":     3,
+	"edi+nested-no-trailer":       3,
+	"csv2+replacequotes":          10, // quote replacing reader, quotes in the last line, EOF with the last chunk
+	"csv+replacequotes":           5,
+	"csv+crlf-multiline":          5,
+	"csv+crlf-multiline-skiprows": 4,
+	"csv2+crlf-multiline":         4,
+	"csv+latin1":                  5, // aligned tails
+	"fixed-length+latin1":         5,
+	"csv2+cp1252":                 3,
+	"fixed-length+strings":        6, // special short lines
+	"fixed-length+strings+crlf":   4,
+	"fixedlength2+rows2":          3,
+	"fixedlength2+rows3":          5,
+	"fixedlength2+rows5":          3,
+	"fixedlength2+headerfooter":   4,
+	"fixed-length+headerfooter":   3,
+	"xml+encdecl-iso-8859-1":      6,
+	"xml+encdecl-windows-1252":    6,
+	"xml":                         5, // prologs, trailing data
+	"json":                        6, // trailing data
+	"csv+bom":                     3,
+	"edi+bom":                     3,
+	"json+bom":                    2,
+}
+
 func maxReads(in []byte) int { return len(in)/2 + 12 }
 
 func show(steps []iox.Step, around int) []iox.Step {
@@ -211,12 +241,12 @@ func main() {
 
 	// ---- generated inputs x schedules ----
 	total := o.Count(800, 12000)
-	var must []iox.Variant // variants every quick run has to contain
+	// every "directed" class gets a guaranteed minimum number of inputs per run, so that adding
+	// variants can not dilute it (the rest of the run picks variants at random)
+	var must []iox.Variant
 	for _, v := range e.variants {
-		if v.OwnProlog {
-			for k := 0; k < 6; k++ {
-				must = append(must, v)
-			}
+		for k := minPerRun[v.Name]; k > 0; k-- {
+			must = append(must, v)
 		}
 	}
 	for c := 0; c < total && !e.hung; c++ {
